@@ -947,6 +947,14 @@ pub fn swarm_for(profile: &str, rng: &mut Rng, thorough: bool) -> Swarm {
     match profile {
         "dml" => {
             sw.w.truncate = if rng.chance(1, 2) { 2 } else { 0 };
+            if rng.chance(1, 3) {
+                // statements the model expects to be refused are DML results too
+                sw.allow_fail = true;
+                sw.aim_fail = rng.range(8, 25) as u32;
+                sw.p_check = 25;
+                sw.p_notnull = 30;
+                sw.p_unique = 25;
+            }
         }
         "fail" => {
             sw.allow_fail = true;
@@ -1003,10 +1011,10 @@ pub fn swarm_for(profile: &str, rng: &mut Rng, thorough: bool) -> Swarm {
             sw.p_unique = 30;
             sw.p_multi_insert = 50;
             sw.max_rows_per_insert = rng.range(3, 30) as usize;
-            if rng.chance(1, 3) {
-                sw.w.begin = 3;
-                sw.w.commit = 2;
-                sw.w.rollback = 2;
+            if rng.chance(1, 2) {
+                sw.w.begin = 4;
+                sw.w.commit = 4;
+                sw.w.rollback = 1;
             }
         }
         "values" => {
